@@ -503,6 +503,20 @@ func mkBin(op Op, a, b *Term) *Term {
 		if a == b {
 			return a
 		}
+		if b.op == OConst {
+			if lo, hi, ok := bvRange(a); ok && hi-lo < 4096 {
+				same := true
+				for v := lo; v <= hi; v++ {
+					if v&b.u != v {
+						same = false
+						break
+					}
+				}
+				if same {
+					return a
+				}
+			}
+		}
 	case OBOr:
 		if a.op == OConst {
 			a, b = b, a
@@ -512,6 +526,20 @@ func mkBin(op Op, a, b *Term) *Term {
 		}
 		if a == b {
 			return a
+		}
+		if b.op == OConst {
+			if lo, hi, ok := bvRange(a); ok && hi-lo < 4096 {
+				same := true
+				for v := lo; v <= hi; v++ {
+					if v|b.u != v {
+						same = false
+						break
+					}
+				}
+				if same {
+					return a
+				}
+			}
 		}
 	case OBXor:
 		if a.op == OConst {
@@ -529,6 +557,53 @@ func mkBin(op Op, a, b *Term) *Term {
 		}
 	}
 	return mkNode(op, a.sort, 0, 0, nil, a, b)
+}
+
+// bvRange: an unsigned value range of a bit-vector term, when it is known from
+// the interval of the Int term it was converted from (no wrap-around).
+func bvRange(t *Term) (lo, hi uint64, ok bool) {
+	w := t.sort.W
+	switch t.op {
+	case OConst:
+		return t.u, t.u, true
+	case OInt2Bv:
+		if iv := ivOf(t.args[0]); iv != nil && iv.lo.Sign() >= 0 && iv.hi.BitLen() <= w && iv.hi.IsUint64() {
+			return iv.lo.Uint64(), iv.hi.Uint64(), true
+		}
+	case OAdd:
+		if t.args[1].op == OConst {
+			if l, h, ok := bvRange(t.args[0]); ok {
+				c := t.args[1].u
+				if h+c >= h && (w >= 64 || h+c <= mask(w)) {
+					return l + c, h + c, true
+				}
+			}
+		}
+	case OZext:
+		return bvRange(t.args[0])
+	}
+	return 0, 0, false
+}
+
+// bvAsInt recovers the Int term a bit-vector term was derived from (int2bv of
+// a ranged Int term, plus constants, without wrap-around).
+func bvAsInt(t *Term) (*Term, bool) {
+	if _, _, ok := bvRange(t); !ok {
+		return nil, false
+	}
+	switch t.op {
+	case OConst:
+		return mkInt(new(big.Int).SetUint64(t.u)), true
+	case OInt2Bv:
+		return t.args[0], true
+	case OAdd:
+		if x, ok := bvAsInt(t.args[0]); ok {
+			return mkIBin(OIAdd, x, mkInt(new(big.Int).SetUint64(t.args[1].u))), true
+		}
+	case OZext:
+		return bvAsInt(t.args[0])
+	}
+	return nil, false
 }
 
 func mkNeg(a *Term) *Term {
@@ -806,6 +881,18 @@ func mkICmp(op Op, a, b *Term) *Term {
 func mkBv2Nat(a *Term) *Term {
 	if a.op == OConst {
 		return mkInt(new(big.Int).SetUint64(a.u))
+	}
+	// bv2nat(int2bv_w(t)) = t when 0 <= t < 2^w is known
+	if a.op == OInt2Bv {
+		if iv := ivOf(a.args[0]); iv != nil && iv.lo.Sign() >= 0 && iv.hi.BitLen() <= a.sort.W {
+			return a.args[0]
+		}
+	}
+	if a.op == OZext {
+		return mkBv2Nat(a.args[0])
+	}
+	if x, ok := bvAsInt(a); ok {
+		return x
 	}
 	return mkNode(OBv2Nat, intSort, 0, 0, nil, a)
 }
